@@ -42,6 +42,18 @@ def jopts(ctx):
     return ["-XX:TieredStopAtLevel=1", "-XX:CICompilerCount=2", "-XX:ParallelGCThreads=2"] if ctx.quick else ["-XX:ParallelGCThreads=4"]
 
 
+def violating_cases(stdout, var="cid"):
+    """TLC -continue output -> {case index: first violated invariant}; works for initial and later states"""
+    bad = {}
+    ms = list(re.finditer(r"Invariant (\S+) is violated", stdout))
+    for n, m in enumerate(ms):
+        end = ms[n + 1].start() if n + 1 < len(ms) else len(stdout)
+        mm = re.compile(r"/\\ %s = (\d+)" % var).search(stdout, m.end(), end)
+        if mm:
+            bad.setdefault(int(mm.group(1)), m.group(1))
+    return bad
+
+
 def conv_spec(flag_chars, w, p):
     return "".join(flag_chars) + ("" if w == NONE else str(w)) + ("" if p == NONE else "." + str(p))
 
@@ -173,15 +185,15 @@ def run(ctx):
     if not tres.ok:
         if tres.kind != "invariant":
             ctx.machinery(f"PrintfTrace failed: {tres.violated}\n{tres.stdout[-1500:]}")
-        for _, st in tres.trace:
-            k = st.get("cid")
-            if k is None or k in bad:
-                continue
+        viol = violating_cases(tres.stdout)
+        if not viol:
+            ctx.machinery(f"PrintfTrace reported {tres.violated} but no case could be identified\n{tres.stdout[-1500:]}")
+        for k, inv in sorted(viol.items()):
             bad.add(k)
             r = rec[k - 1]
             exp = ("%" + r["spec"] + "d") % r["n"] if not (r["prec"] == 0 and r["n"] == 0) else "?"
             ctx.violation(f"mismatch:trace:%{r['spec']}d:n={r['n']}",
-                          f"file name for template %{r['spec']}d index {r['n']} rejected by PrintfTrace ({tres.violated}): "
+                          f"file name for template %{r['spec']}d index {r['n']} rejected by PrintfTrace ({inv}): "
                           f"got {chars(r['out'])!r}, C printf gives {exp!r}",
                           {"origin": "trace", "template": f"%{r['spec']}d", "n": r["n"], "style": STYLES[r["style"]][:3],
                            "got": chars(r["out"]), "expected": exp})
